@@ -43,19 +43,19 @@ NOTZ = 9999
 TIERS = {
     'quick': dict(
         sweep='quick',
-        chains=[('11-small-1', dict(Xsd='11', GridName='small', MaxOps=1, LawOps=0, ImplicitTZ=0)),
-                ('10-small-1', dict(Xsd='10', GridName='small', MaxOps=1, LawOps=0, ImplicitTZ=0)),
-                ('11-tiny-2', dict(Xsd='11', GridName='tiny', MaxOps=2, LawOps=1, ImplicitTZ=0)),
-                ('10-tiny-2', dict(Xsd='10', GridName='tiny', MaxOps=2, LawOps=1, ImplicitTZ=0)),
-                ('11-tiny-impl', dict(Xsd='11', GridName='tiny', MaxOps=1, LawOps=1, ImplicitTZ=330))],
+        chains=[('11-small-1', dict(Xsd='11', GridName='small', MaxOps=1, LawOps=0, ImplicitTZcfg=0)),
+                ('10-small-1', dict(Xsd='10', GridName='small', MaxOps=1, LawOps=0, ImplicitTZcfg=0)),
+                ('11-tiny-2', dict(Xsd='11', GridName='tiny', MaxOps=2, LawOps=1, ImplicitTZcfg=0)),
+                ('10-tiny-2', dict(Xsd='10', GridName='tiny', MaxOps=2, LawOps=1, ImplicitTZcfg=0)),
+                ('11-tiny-impl', dict(Xsd='11', GridName='tiny', MaxOps=1, LawOps=1, ImplicitTZcfg=10030))],
         tlc_workers=4, parallel=6),
     'thorough': dict(
         sweep='thorough',
-        chains=[('11-full-1', dict(Xsd='11', GridName='full', MaxOps=1, LawOps=0, ImplicitTZ=0)),
-                ('10-full-1', dict(Xsd='10', GridName='full', MaxOps=1, LawOps=0, ImplicitTZ=0)),
-                ('11-small-2', dict(Xsd='11', GridName='small', MaxOps=2, LawOps=1, ImplicitTZ=0)),
-                ('10-small-2', dict(Xsd='10', GridName='small', MaxOps=2, LawOps=1, ImplicitTZ=0)),
-                ('11-small-impl', dict(Xsd='11', GridName='small', MaxOps=1, LawOps=0, ImplicitTZ=330))],
+        chains=[('11-full-1', dict(Xsd='11', GridName='full', MaxOps=1, LawOps=0, ImplicitTZcfg=0)),
+                ('10-full-1', dict(Xsd='10', GridName='full', MaxOps=1, LawOps=0, ImplicitTZcfg=0)),
+                ('11-small-2', dict(Xsd='11', GridName='small', MaxOps=2, LawOps=1, ImplicitTZcfg=0)),
+                ('10-small-2', dict(Xsd='10', GridName='small', MaxOps=2, LawOps=1, ImplicitTZcfg=0)),
+                ('11-small-impl', dict(Xsd='11', GridName='small', MaxOps=1, LawOps=0, ImplicitTZcfg=330))],
         tlc_workers=8, parallel=3),
 }
 
@@ -361,7 +361,11 @@ def xp_cases(stext, action, args, src, dst, cfg):
         return [('plain', f'adjust-{k}-to-timezone({stext}, {xp_tz(args[0])})', expect(dst))]
     if action == 'AdjustImpl':
         k = src['k']
-        return [('plain', f'adjust-{k}-to-timezone({stext})', expect(dst))]
+        imp = cfg['implicit']
+        return [('plain', f'adjust-{k}-to-timezone({stext})', expect(dst)),
+                # fn:implicit-timezone() is the configured implicit timezone itself (a constant of the model)
+                ('implicit-timezone', 'implicit-timezone()',
+                 exp_dur(dict(k='dtd', neg=imp < 0, m=0, d=0, s=abs(imp) * 60, us=0)))]
     if action == 'Components':
         return [(name, f'{fn}({stext})', comp_expected(dst, name)) for name, fn in COMP_FN[src['k']]]
     if action == 'AddTo':
@@ -857,7 +861,8 @@ def load_chain(name, consts, dot, output):
         tables[tag] = printed_table(output, tag, name)
     others = {k: list(v) for k, v in tables['others'].items()}
     durothers = {k: list(v) for k, v in tables['durothers'].items()}
-    imp = consts['ImplicitTZ']
+    imp = consts['ImplicitTZcfg']
+    imp = 10000 - imp if imp >= 10000 else imp       # 10000 + m stands for -m in the cfg file
     cfg = dict(name=name, xsd=consts['Xsd'], implicit=imp, timezone=None if imp == 0 else lex_tz(imp),
                others=others, durothers=durothers)
     # BFS tree: predecessor edge of every state that is the result of an operation (for the nested spelling)
@@ -908,7 +913,7 @@ def run(chk: core.Check) -> None:
     chk.assumptions += [
         'spec/Calendar.tla + Durations.tla + DateChain.tla are the oracle; python datetime cross-checks the spec on years 1..9999 (every swept day, every edge within range)',
         'TLC integers are 32 bit: |year| <= 5 000 000 in the specification (day numbers must fit); the property text allows years up to 2^31',
-        'implicit timezone = UTC (elementpath without a context timezone) except in the *-impl models, which pass timezone=+05:30 to the dynamic context',
+        'implicit timezone = UTC (elementpath without a context timezone) except in the *-impl models, which pass timezone=-00:30 (quick) / +05:30 (thorough) to the dynamic context',
         'XSD 1.0 year numbering is read as the proleptic Gregorian calendar without a year 0 (-0001 = 1 BCE, a leap year)',
         'not judged: Python attribute .year (documented no-year-zero convention of the classes), canonical duration strings (C10), overflow errors',
     ]
